@@ -1,11 +1,11 @@
 package filersim
 
 import (
-	"runtime/debug"
 	"context"
 	"fmt"
 	"os"
 	"path/filepath"
+	"runtime/debug"
 	"sort"
 	"strings"
 	"time"
@@ -37,31 +37,31 @@ import (
 //	repl    replication actions (C36)
 
 type sess struct {
-	r        *simkit.Run
-	prop     string
-	kind     string
-	dir      string
-	sig      int32
-	n        *fnode
-	model    *model
-	universe []string
-	fidSeq   uint64
-	linkSeq  int
-	faults   bool
-	opIndex  int
-	lastOp   string // abstract shape of the last operation (goes into violation keys)
-	gc       *gcState
-	repl     *replState
-	vs       *volStub
-	deferred *discrepancy // reported at the end of the run if nothing else is violated
-	role     opRole
-	manifests map[string][]string // manifest chunk file id -> data chunk file ids
-	expiredPresent bool           // C19: an enumeration is under way during which entries expired
-	zombies        map[string]bool // directories that may still physically hold entries the model has expired
-	chunkRun       bool            // C36: files carry real chunk bytes on replicated stub volume servers
-	curFired       string          // store call that was failed inside the current operation ("" = none)
-	excusedOrphans map[string]bool // entries left under a deleted parent by ignore_recursive_error + injected store failure
-	sigs           []int32         // signatures the next request carries (C36: a change that came from the target cluster)
+	r              *simkit.Run
+	prop           string
+	kind           string
+	dir            string
+	sig            int32
+	n              *fnode
+	model          *model
+	universe       []string
+	fidSeq         uint64
+	linkSeq        int
+	faults         bool
+	opIndex        int
+	lastOp         string // abstract shape of the last operation (goes into violation keys)
+	gc             *gcState
+	repl           *replState
+	vs             *volStub
+	deferred       *discrepancy // reported at the end of the run if nothing else is violated
+	role           opRole
+	manifests      map[string][]string // manifest chunk file id -> data chunk file ids
+	expiredPresent bool                // C19: an enumeration is under way during which entries expired
+	zombies        map[string]bool     // directories that may still physically hold entries the model has expired
+	chunkRun       bool                // C36: files carry real chunk bytes on replicated stub volume servers
+	curFired       string              // store call that was failed inside the current operation ("" = none)
+	excusedOrphans map[string]bool     // entries left under a deleted parent by ignore_recursive_error + injected store failure
+	sigs           []int32             // signatures the next request carries (C36: a change that came from the target cluster)
 	fromOther      bool
 }
 
